@@ -730,7 +730,14 @@ pub fn populate(st: &mut Store, entropy: &[u32], fr: &Freedoms, max_objects: usi
     let mut pool = Pool::new(entropy);
     // free clusters, minus a few BAD ones
     let mut free: Vec<u32> = (2..=g.max_cluster()).filter(|c| !(g.width == 32 && *c == g.raw.root_clus)).collect();
-    if free.len() > 3000 {
+    let near_limit = |n: u32| (n as i64 - 4085).abs() <= 16 || (n as i64 - 65525).abs() <= 16;
+    if near_limit(g.max_cluster()) {
+        // cluster count on a FAT-width limit: work at the two ends, so that chains use the highest cluster numbers
+        let n = free.len();
+        let mut f2: Vec<u32> = free[..60].to_vec();
+        f2.extend_from_slice(&free[n - 60..]);
+        free = f2;
+    } else if free.len() > 3000 {
         // keep the working set small on big volumes: a window at the start, one in the middle, one at the very end
         let n = free.len();
         let mut f2: Vec<u32> = free[..800].to_vec();
